@@ -30,6 +30,7 @@ package machos
 //@   ensures @header_extended_only_for_a_new_load_command ret1 == nil ==> f.loadCsStart > 0 && f.loadCsStart + 16 <= len(ret0) && len(ret0) >= old(len(newHeader)) && \
 //@        len(ret0) <= old(len(newHeader)) + 16 && (old(f.loadCsStart) != 0 ==> sameslice(ret0, newHeader))
 //@   before call (*binpatch.PatchSet).Add(_, off, sz, blob): assert @only_the_command_count_and_size_fields_change off == 16 && sz == 8 && len(blob) == 8
+//@   ensures @a_new_load_command_ends_in_front_of_the_first_section ret1 == nil && old(f.loadCsStart) == 0 ==> f.loadCsStart == f.nextLc && f.loadCsStart + 16 <= f.firstSh
 //@   ensures @patch_set_stays_well_formed binpatch.repOK(patch) && binpatch.rangesOK(patch)
 //@   modifies f.loadCsStart, mem(newHeader), patch.Patches, patch.Blobs, mem(patch.Patches), mem(patch.Blobs)
 //@   allocbound 0 len(newHeader) + 16
@@ -59,6 +60,10 @@ package machos
 //@        patch != nil && binpatch.repOK(patch) && binpatch.rangesOK(patch)
 //@   before call (*binpatch.PatchSet).Add(_, off, sz, blob): assert @only_the_size_fields_of_the_linkedit_command_change \
 //@        len(blob) == sz && ((f.Magic == 4277009103 && off == f.linkEditHdrPos + 32 && sz == 24) || (f.Magic != 4277009103 && off == f.linkEditHdrPos + 28 && sz == 12))
+//@   before call invoke encoding/binary.ByteOrder.PutUint64(_, b, v): assert @linkedit_file_size_ends_with_the_signature \
+//@        len(b) == len(newHeader) - f.linkEditHdrPos - 48 ==> v == (sigStart + sigSize - f.linkEditHdr.Offset + 18446744073709551616) % 18446744073709551616
+//@   before call invoke encoding/binary.ByteOrder.PutUint32(_, b, v): assert @linkedit_file_size_ends_with_the_signature_32 \
+//@        len(b) == len(newHeader) - f.linkEditHdrPos - 36 ==> v == (sigStart + sigSize - f.linkEditHdr.Offset + 18446744073709551616) % 4294967296
 //@   ensures @patch_set_stays_well_formed binpatch.repOK(patch) && binpatch.rangesOK(patch)
 //@   modifies mem(newHeader), patch.Patches, patch.Blobs, mem(patch.Patches), mem(patch.Blobs)
 //@
